@@ -47,13 +47,11 @@ Proof. apply entry_bytes. Qed.
 From Zap Require Import Enc.Parse3 Enc.Parse4.
 Lemma dec_cfg_quirks s : q_nil_caller_guard (dec_cfg s) = true /\ q_layout_escaped (dec_cfg s) = true.
 Proof. split; reflexivity. Qed.
-Theorem wire_thm i : wf i = true ->
-  owf_ctxs (ec_ctxs (dec_case i)) -> owf_flds (ec_fs (dec_case i)) -> rend_pre (t_rend (time_val (ec_ent (dec_case i)))) ->
-  spec i (model i) = true.
+Theorem wire_thm i : wf i = true -> spec i (model i) = true.
 Proof.
-  unfold wf, wf_case, spec, model, json_line. intros Hw Hc Hf Ht.
+  unfold wf, wf_case, spec, model, json_line. intros Hw.
   apply andb_true_iff in Hw as [Hw We]. apply andb_true_iff in Hw as [Wc Wf'].
-  destruct (entry_valid (ec_cfg (dec_case i)) (ec_ctxs (dec_case i)) (ec_ent (dec_case i)) (ec_fs (dec_case i))
-              eq_refl eq_refl Wc Wf' We Hc Hf Ht) as (out & E & L).
+  destruct (entry_valid_wf (ec_cfg (dec_case i)) (ec_ctxs (dec_case i)) (ec_ent (dec_case i)) (ec_fs (dec_case i))
+              eq_refl eq_refl Wc Wf' We) as (out & E & L).
   rewrite E. cbn [sx_l]. unfold line_ok. now rewrite L.
 Qed.
